@@ -31,7 +31,8 @@ Init ==
   IF BigInit
     THEN /\ ci \in {i \in DOMAIN Catalog : Catalog[i].id = "X_vu8_u8"}
          /\ L = BigL
-         /\ \E n \in DOMAIN BigTrees : tree = BigTrees[n]
+         /\ \/ \E n \in DOMAIN BigTrees : tree = BigTrees[n]
+            \/ tree = [items |-> <<>>]          \* ... and from the empty vector, into which items of 251 .. 254 bytes are pushed
     ELSE /\ ci \in {i \in DOMAIN Catalog : Catalog[i].id \in TypeIds}
          /\ L \in LSet(Catalog[ci].t)
          /\ LET tv == TV(Catalog[ci].t, L) IN \E vi \in 1..Len(tv) : tree = tv[vi]
@@ -57,7 +58,10 @@ Step ==
   \E pi \in 1..Len(paths) :
     LET path == paths[pi]
         nd == Get(tree, T, L, path, 0)
-        ops == OpsAt(nd.v, nd.t, nd.l, path = <<>>)
+        \* (an item whose own record reaches L::MAX can be pushed -- as the last item -- but never sealed afterwards)
+        ops == IF BigInit /\ path = <<>> /\ Len(tree.items) = 0
+                 THEN [k \in 1..4 |-> Op("push", 0, Rep(250 + k, <<7>>))]
+                 ELSE OpsAt(nd.v, nd.t, nd.l, path = <<>>)
     IN \E oi \in 1..Len(ops) :
          LET o == ops[oi]  r == Apply(tree, T, L, path, o) IN
          \* (with the long vectors of BigInit only the operations that move the boundary are explored)
@@ -73,7 +77,9 @@ Next == Step
 Spec == Init /\ [][Next]_vars
 
 \* state constraint of the BigInit configuration: at most two items, the second one short
-BigBound == Len(tree.items) \in 1..2 /\ Len(tree.items[1].v.items) >= 249 /\ (Len(tree.items) = 2 => Len(tree.items[2].v.items) <= 1)
+BigBound == /\ Len(tree.items) \in 0..2
+            /\ (Len(tree.items) >= 1 => Len(tree.items[1].v.items) >= 249)
+            /\ (Len(tree.items) = 2 => Len(tree.items[2].v.items) <= 1)
 
 \* ---- invariants of every reachable state --------------------------------------------------------
 InvRoundTrip == RoundTrip(tree, T, L)
